@@ -137,8 +137,16 @@ pub async fn send_appointment(
                 r.start_block,
                 r.signature.clone(),
             );
+            // The signature is data handed by the tower: it may not even be a recoverable signature.
             let recovered_id = TowerId(
-                cryptography::recover_pk(&receipt.to_vec(), &receipt.signature().unwrap()).unwrap(),
+                cryptography::recover_pk(&receipt.to_vec(), &receipt.signature().unwrap()).map_err(
+                    |_| {
+                        RequestError::Unexpected(
+                            "The appointment receipt contains a signature that cannot be recovered"
+                                .to_owned(),
+                        )
+                    },
+                )?,
             );
             if recovered_id == tower_id {
                 Ok((r, receipt))
